@@ -48,7 +48,8 @@ Inductive pop :=
 | PZRem (k : bytes) (ms : list bytes)
 | PZRemRangeByRank (k : bytes) (a b : Z)
 | PZRemRangeByScore (k : bytes) (mn mx : score) (mode : Z)
-| PZUnionStore (k : bytes) (ks : list bytes) | PZInterStore (k : bytes) (ks : list bytes).
+| PZUnionStore (k : bytes) (ks : list bytes) | PZInterStore (k : bytes) (ks : list bytes)
+| PDel (k : bytes) | PClear.
 
 Inductive event :=
 | EvSignal (k : bytes)          (* signalModifiedKey: watchers of k are flagged *)
